@@ -344,8 +344,11 @@ std::vector<std::string> fsync_order_breaches(const Sandbox& sb, const CmdResult
 {
 	std::vector<std::string> v;
 	std::set<std::string> dirty_parity, dirty_tmp;
+	bool workers_running = false;
 	for (auto& e : r.trace) {
 		const std::string& p = r.path(e.path);
+		if (e.kind == EV_IO_START) workers_running = e.off > 1;
+		if (e.kind == EV_IO_STOP && e.off == 1) workers_running = false;
 		if (e.kind == EV_PWRITE && e.res > 0 && is_parity_path(sb, p)) dirty_parity.insert(p);
 		else if (e.kind == EV_WRITE && e.res > 0 && ends_with(p, ".tmp")) dirty_tmp.insert(p);
 		else if (e.kind == EV_FSYNC && e.res == 0) { dirty_parity.erase(p); dirty_tmp.erase(p); }
@@ -353,7 +356,8 @@ std::vector<std::string> fsync_order_breaches(const Sandbox& sb, const CmdResult
 			const std::string& to = r.path((uint32_t)e.aux);
 			if (is_content_path(sb, to, false, false)) {
 				if (dirty_tmp.count(p)) v.push_back("rename of " + p + " before its fsync");
-				for (auto& d : dirty_parity) v.push_back("content " + to + " replaced while parity " + d + " has unflushed writes");
+				for (auto& d : dirty_parity)
+					v.push_back("content " + to + " replaced while parity " + d + " has unflushed writes" + (workers_running ? " (write-behind threads still running: autosave)" : " (worker threads already stopped)"));
 			}
 		}
 	}
